@@ -163,7 +163,7 @@ PROPS["C11"] = {
 
 
 PROPS["C10"] = {
-    "functions": ["_event.Signal.dispatch", "_event.Signal._subscribe", "_event.Signal._check_is_bound_signal"],
+    "functions": ["_event.Signal.dispatch", "_event.Signal._subscribe", "_event.Signal._check_is_bound_signal", "_event.Signal.__get__"],
     "trusted": ["A-MS anyio memory object stream (send_nowait: closed -> ClosedResourceError, no receiver -> BrokenResourceError, room -> "
                 "buffered/handed over, else WouldBlock; never suspends; FIFO, each item once)", "A-CM contextmanager generator protocol",
                 "A-WR weakref", "A-SUB1 a subscription removes only its own stream", "warnings.warn does not raise", "pyvc list model"],
